@@ -29,8 +29,8 @@ import (
 )
 
 var (
-	tier   = flag.String("tier", "quick", "quick|thorough")
-	replay = flag.String("replay", "", "replay file (an extension vocabulary)")
+	tier    = flag.String("tier", "quick", "quick|thorough")
+	replay  = flag.String("replay", "", "replay file (an extension vocabulary)")
 	onlyExt = flag.Int("ext", -1, "development aid: run only the extension vocabulary with this index")
 	keep    = flag.Bool("keep", false, "development aid: keep the extension tree")
 )
